@@ -1090,6 +1090,9 @@ def values_equal(a: Any, b: Any, rel: float = 1e-9) -> bool:
     tc = getattr(a, "trouble_code", None)
     if tc is not None and not isinstance(a, (int, float)):
         a = tc
+    tc = getattr(b, "trouble_code", None)
+    if tc is not None and not isinstance(b, (int, float)):
+        b = tc
     if isinstance(a, bool):
         a = int(a)
     if isinstance(b, bool):
